@@ -142,7 +142,7 @@ fn graph_world(edges: &[Vec<Vec<Edge>>], one_of: &[bool], single_var: bool) -> O
     let n = edges.len();
     let mut inputs = Vec::new();
     for i in 0..n {
-        let mut fields = vec![InputFieldDef { name: "leaf".into(), ty: TypeExpr::plain(Named::Int, false) }];
+        let mut fields = vec![InputFieldDef { name: "leaf".into(), ty: TypeExpr::plain(Named::Int, false), default: None }];
         for j in 0..n {
             for (k, e) in edges[i][j].iter().enumerate() {
                 if let Some(ty) = edge_type(*e, j) {
@@ -150,7 +150,7 @@ fn graph_world(edges: &[Vec<Vec<Edge>>], one_of: &[bool], single_var: bool) -> O
                         return None; // @oneOf members are nullable by definition
                     }
                     let name = if k == 0 { MEMBER_NAMES[j].to_string() } else { format!("{}Also", MEMBER_NAMES[j]) };
-                    fields.push(InputFieldDef { name, ty });
+                    fields.push(InputFieldDef { name, ty, default: None });
                 }
             }
         }
@@ -227,7 +227,9 @@ fn breakable(edges: &[Vec<Vec<Edge>>]) -> bool {
 fn graph_item(edges: &[Vec<Vec<Edge>>], one_of: &[bool], label: &str) -> Option<Item> {
     let world = graph_world(edges, one_of, crate::tape::fnv(label.as_bytes()) % 2 == 0)?;
     let valid = breakable(edges);
-    let mut base = base_from_world(world, Opts::default(), Delivery::Library);
+    // half the compiled graphs run with skip_serializing_none: the Box must stay invisible there too
+    let skip = crate::tape::fnv(label.as_bytes()) % 4 >= 2;
+    let mut base = base_from_world(world, Opts { skip_none: skip, ..Opts::default() }, Delivery::Library);
     let mut expects = Vec::new();
     let mut nt = Vec::new();
     let mut labels = Vec::new();
@@ -240,7 +242,7 @@ fn graph_item(edges: &[Vec<Vec<Edge>>], one_of: &[bool], label: &str) -> Option<
             let sub = super::subtape(label.as_bytes(), k, 1024);
             let a = g.assignment(&mut Tape::new(&sub), &op);
             base.case.vectors.push(Vector { unit: 0, kind: "variables".into(), name: String::new(), input: assignment_input(&a) });
-            expects.push(Expectation::OkMember { key: "variables".into(), value: assignment_wire(&a, false) });
+            expects.push(Expectation::OkMember { key: "variables".into(), value: assignment_wire(&a, skip) });
             nt.push(if cyc { Some(h ^ k) } else { None });
             labels.push(format!("graph {} assignment#{}", label, k));
         }
